@@ -371,6 +371,25 @@ def run_case(case, ctx):
             repr(job)
             cl.append("view_read_before_edit")
         cur = json.loads(json.dumps(sp))
+        import contextlib
+        import copy as _copy
+
+        # several shallow copies of the handle (also a copy of a copy) are alive while it is edited
+        copies = []
+        for n in range(int(case.get("copies", 0)) % 4):
+            copies.append(_copy.copy(copies[-1] if (copies and case.get("chain")) else job))
+        if copies:
+            cl.append("shallow_copies_alive")
+        # the edits happen while the job is open as a context manager (cwd inside the job directory)
+        ctxm = job if case.get("in_context") else contextlib.nullcontext()
+        if case.get("in_context"):
+            cl.append("edited_inside_with_job")
+        cwd0 = os.getcwd()
+        try:
+            ctxm.__enter__()
+        except Exception as exc:
+            mms.append(Mismatch("unexpected_exception", f"with job: raised {type(exc).__name__}: {exc}"))
+            ctxm = contextlib.nullcontext()
         for e in edits:
             if not isinstance(e, (list, tuple)) or len(e) < 2 or not isinstance(e[0], str):
                 continue
@@ -426,6 +445,20 @@ def run_case(case, ctx):
             for what, got in (("statepoint()", job.statepoint()), ("cached_statepoint", dict(job.cached_statepoint))):
                 if oracle.job_id(got) != job.id:
                     mms.append(Mismatch("handle_id_ne_hash", f"after {k!r}={v!r} via {route} on {sp!r}: the editing handle has id {job.id[:8]} but its {what} = {got!r} hashes to {oracle.job_id(got)[:8]}"))
+        try:
+            ctxm.__exit__(None, None, None)
+        except Exception as exc:
+            mms.append(Mismatch("unexpected_exception", f"leaving `with job:` after the edits raised {type(exc).__name__}: {exc}"))
+        os.chdir(cwd0)
+        for n, c in enumerate(copies):
+            try:
+                got = c.statepoint()
+                if c.id != job.id or oracle.job_id(got) != c.id:
+                    mms.append(Mismatch("handle_id_ne_hash", f"shallow copy #{n} of the edited handle ({len(copies)} copies{', chained' if case.get('chain') else ''}) has id {c.id[:8]}, state point {got!r} (hash {oracle.job_id(got)[:8]}); the edited handle has id {job.id[:8]}"))
+            except Exception as exc:
+                mms.append(Mismatch("unexpected_exception", f"shallow copy #{n} after the edits: statepoint() raised {type(exc).__name__}: {exc}"))
+        if os.path.basename(job.path) != job.id or not os.path.isfile(os.path.join(d, "workspace", job.id, "signac_statepoint.json")):
+            mms.append(Mismatch("handle_id_ne_hash", f"after the edits the handle has id {job.id[:8]}, path {job.path!r}; state point file under its id present: {os.path.isfile(os.path.join(d, 'workspace', job.id, 'signac_statepoint.json'))}"))
         seen = {old_id, job.id}
         for jid in sorted(seen):
             for proj in (p2, _s.Project(d)):
@@ -433,7 +466,12 @@ def run_case(case, ctx):
                     h = proj.open_job(id=jid)
                     got = h.statepoint()
                     cached = dict(h.cached_statepoint)
-                except (KeyError, LookupError, JobsCorruptedError):
+                except (KeyError, LookupError):
+                    if jid == job.id:
+                        mms.append(Mismatch("reopened_id_ne_hash", f"the job's current id {jid[:8]} cannot be opened by id after editing {sp!r} with {edits!r}"))
+                    continue
+                except JobsCorruptedError as exc:
+                    mms.append(Mismatch("reopened_id_ne_hash", f"open_job(id={jid[:8]}).statepoint() after editing {sp!r} with {edits!r} raised JobsCorruptedError: {exc}"))
                     continue
                 for what, v in (("statepoint()", got), ("cached_statepoint", cached)):
                     if oracle.job_id(v) != jid or h.id != jid:
@@ -610,6 +648,9 @@ def run(ctx):
         "how": st.sampled_from(["id", "iter"]),
         "touch": st.booleans(),
         "peek": st.booleans(),
+        "copies": st.sampled_from([0, 0, 1, 2, 3]),
+        "chain": st.booleans(),
+        "in_context": st.sampled_from([False, False, True]),
         "transient": st.sampled_from([None, None, "missing", "torn"]),
     })
     drive(ctx, hist_st, 100 if ctx.tier == "quick" else 800, ctx.apply)
